@@ -49,6 +49,9 @@ def run(e: Engine, rep: Report):
     b3(e, rep)
     b4(e, rep)
     b5(e, rep)
+    rep.rule('B6', 'no write to a per-recipient reply on a path before the '
+             '_split_by_reply call that groups them by equality')
+    b6(e, rep)
 
 
 def b5(e: Engine, rep: Report):
@@ -621,3 +624,83 @@ def b4(e: Engine, rep: Report):
             'the enqueued object is the factory result',
             'the enqueued object is not what bounce_factory returned',
             loc=n.loc(), reason='single def from self.bounce_factory(...)')
+
+
+# --------------------------------------------------------------------- B6
+def b6(e: Engine, rep: Report):
+    """Groups are formed by reply EQUALITY, so the replies must reach
+    _split_by_reply as the relay reported them.  Changing them first
+    (appending a note to every recipient's reply) changes a reply object
+    that several recipients share once per recipient: equal replies stop
+    comparing equal, one failure reason yields several bounces, each naming
+    only part of the recipients."""
+    c = common.merged_class(e, QUEUE)
+    n = 0
+    for mname, m in sorted(c.methods.items()):
+        calls = [x for x in walk_own(m.node) if isinstance(x, ast.Call) and
+                 ast.unparse(x.func) == 'self._split_by_reply' and
+                 len(x.args) >= 2]
+        if not calls:
+            continue
+        ctx = Ctx(m, QUEUE)
+        g = e.build(ctx, raises=lambda b, nn, r: set())
+        rep.functions.add(m.qname)
+        for call in calls:
+            n += 1
+            rep.evaluations += 1
+            arg = call.args[1]
+            # names that stand for the replies (aliases, `[r] if .. else r`)
+            src = {x.id for x in ast.walk(arg) if isinstance(x, ast.Name)}
+            changed = True
+            while changed:
+                changed = False
+                for a in walk_own(m.node):
+                    if isinstance(a, ast.Assign) and any(
+                            isinstance(y, ast.Name) and y.id in src
+                            for y in ast.walk(a.value)):
+                        for t in a.targets:
+                            if isinstance(t, ast.Name) and t.id not in src:
+                                src.add(t.id)
+                                changed = True
+            elems = set()
+            for lp in walk_own(m.node):
+                if isinstance(lp, ast.For) and any(
+                        isinstance(y, ast.Name) and y.id in src
+                        for y in ast.walk(lp.iter)) and \
+                        '_split_by_reply' not in ast.unparse(lp.iter):
+                    elems |= {y.id for y in ast.walk(lp.target)
+                              if isinstance(y, ast.Name)}
+            cnodes = [x for x in g.nodes if x.kind in ('call', 'call_enter')
+                      and x.ast is call]
+            muts = []
+            for x in g.of_kind('stmt'):
+                a = x.ast
+                tg = a.targets if isinstance(a, ast.Assign) else (
+                    [a.target] if isinstance(a, ast.AugAssign) else [])
+                for t in tg:
+                    if isinstance(t, ast.Attribute) and \
+                            isinstance(t.value, ast.Name) and \
+                            t.value.id in (elems | src) and not (
+                                # the loop over the groups themselves
+                                any(sc.kind == 'loop' and
+                                    '_split_by_reply' in ast.unparse(
+                                        sc.ast.iter) for sc in x.scopes
+                                    if isinstance(sc.ast, ast.For))):
+                        muts.append(x)
+            before = [x for x in muts if any(
+                cn.id in dataflow.reachable(
+                    g, x, lambda a2, l, s2: not isinstance(l, tuple))
+                for cn in cnodes)]
+            rep.check(not before, 'B6', m.qname,
+                      'replies reach _split_by_reply as the relay reported '
+                      'them',
+                      '`%s` changes the per-recipient replies before they '
+                      'are grouped by equality: a reply object shared by '
+                      'several recipients is changed once per recipient, '
+                      'equal replies no longer compare equal and one '
+                      'failure reason produces several bounces' % (
+                          before[0].text(50) if before else ''),
+                      loc=before[0].loc() if before else m.loc(call),
+                      reason='no write to a reply before the grouping call')
+    if n < 2:
+        rep.error('anchor vanished: callers of _split_by_reply (%d < 2)' % n)
